@@ -407,9 +407,11 @@ def _inline_plain_aliases(fn) -> None:
         for owner, fld in blocks:
             lst = getattr(owner, fld)
             for i, st in enumerate(lst):
-                if isinstance(st, ast.Assign) and len(st.targets) == 1 and isinstance(st.targets[0], ast.Name) and _plain_chain(st.value) \
-                        and not isinstance(st.value, ast.Name):
-                    x, root = st.targets[0].id, _chain_root(st.value)
+                is_const = isinstance(st, ast.Assign) and isinstance(st.value, ast.Constant) and isinstance(st.value.value, (str, int, float)) \
+                    and not isinstance(st.value.value, bool)
+                if isinstance(st, ast.Assign) and len(st.targets) == 1 and isinstance(st.targets[0], ast.Name) and (is_const or (_plain_chain(st.value)
+                        and not isinstance(st.value, ast.Name))):
+                    x, root = st.targets[0].id, (None if is_const else _chain_root(st.value))
                     if stores.get(x) == 1 and root not in ("self", "cls") and stores.get(root, 0) <= 1 and root not in written_paths \
                             and x not in written_paths and root != x:
                         # every read of x stands in a later statement of the same block (the binding dominates it)
@@ -816,6 +818,19 @@ class _Norm(ast.NodeTransformer):
 
     def visit_JoinedStr(self, node):
         self.generic_visit(node)
+        # a hole that holds a string constant is literal text: f"{'/scripts'}/{x}" is f"/scripts/{x}"
+        vals = []
+        for v in node.values:
+            if isinstance(v, ast.FormattedValue) and isinstance(v.value, ast.Constant) and isinstance(v.value.value, str) and v.format_spec is None \
+                    and v.conversion == -1:
+                v = ast.copy_location(ast.Constant(value=v.value.value), v)
+            if isinstance(v, ast.Constant) and vals and isinstance(vals[-1], ast.Constant):
+                vals[-1] = ast.copy_location(ast.Constant(value=vals[-1].value + v.value), vals[-1])
+            else:
+                vals.append(v)
+        node.values = vals
+        if len(vals) == 1 and isinstance(vals[0], ast.Constant):
+            return ast.copy_location(ast.Constant(value=vals[0].value), node)
         if len(node.values) == 1 and isinstance(node.values[0], ast.FormattedValue) and node.values[0].format_spec is None \
                 and node.values[0].conversion == -1:
             return ast.copy_location(ast.Call(func=ast.Name(id="str", ctx=ast.Load()), args=[node.values[0].value], keywords=[]), node)
